@@ -55,7 +55,7 @@ class H:
     core: bool = True         # undecided core harness => machinery failure (exit 2)
     kind: str = 'normal'      # 'normal' | 'panic' (must-panic harness) | 'kf' (expected-to-fail known finding twin)
     stub: bool = False        # needs -Z stubbing
-    mem_gb: int = 16
+    mem_gb: int = 10
     inst: str = ''
     bound: str = ''           # human-readable bound of this harness
     funcs: str = ''           # API group encoded
@@ -388,9 +388,9 @@ for tier, insts in (('quick', C17_Q), ('thorough', C17_T)):
 for i, tier, cap in ((I(8, 1), 'quick', 1200), (I(16, 1), 'quick', 1200), (I(64, 1), 'thorough', 3600), (I(8, 3), 'thorough', 5400), (I(64, 2), 'thorough', 5400)):
     for sg, T in (('u', i.U), ('i', i.I)):
         nm = 'BUint' if sg == 'u' else 'BInt'
-        add(H('C17', f"c17_shift_forms_{sg}_{i.tag}", 'c17_shift_forms', f"{i.n + 2}, {T}, {i.digit}, {i.n}", tier=tier, inst=i.label, cap=cap, core=(tier == 'quick'), mem_gb=24,
+        add(H('C17', f"c17_shift_forms_{sg}_{i.tag}", 'c17_shift_forms', f"{i.n + 2}, {T}, {i.digit}, {i.n}", tier=tier, inst=i.label, cap=cap, core=(tier == 'quick'), mem_gb=10,
               funcs=f"{nm} Shl/Shr reference and assign forms for the 12 primitive amount types", bound='all values, all in-range amounts'))
-        add(H('C17', f"c17_shift_forms_panic_{sg}_{i.tag}", 'c17_shift_forms_panic', f"{i.n + 2}, {T}, {i.digit}, {i.n}", tier=tier, inst=i.label, cap=cap, kind='panic', core=(tier == 'quick'), mem_gb=24,
+        add(H('C17', f"c17_shift_forms_panic_{sg}_{i.tag}", 'c17_shift_forms_panic', f"{i.n + 2}, {T}, {i.digit}, {i.n}", tier=tier, inst=i.label, cap=cap, kind='panic', core=(tier == 'quick'), mem_gb=10,
               funcs=f"{nm} Shl/Shr reference and assign forms panic for out-of-range amounts of the 12 primitive amount types", bound='all values, all out-of-range amounts'))
 for i, tier, cap in ((I(8, 1), 'quick', 900), (I(8, 2), 'thorough', 3600)):
     for sg, T in (('u', i.U), ('i', i.I)):
@@ -414,9 +414,9 @@ both('C18', 'c18_forward_lin', [I(8, 1), I(8, 3), I(64, 1), I(64, 2)], [I(16, 2)
 both('C18', 'c18_signed', [I(8, 1), I(8, 3), I(64, 2)], [I(16, 2), I(32, 3), I(64, 3)], signs=('i',), group='Signed: abs, abs_sub, signum, is_positive, is_negative')
 for i, tier, cap, steps in ((I(8, 1), 'quick', 1200, 13), (I(8, 2), 'thorough', 7200, 24), (I(16, 1), 'thorough', 7200, 24)):
     for sg, T in (('u', i.U), ('i', i.I)):
-        add(H('C18', f"c18_gcd_{sg}_{i.tag}", 'c18_gcd', f"{steps + 2}, {T}, {i.digit}, {i.n}, {steps}", tier=tier, cap=cap, inst=i.label, core=False, mem_gb=28,
+        add(H('C18', f"c18_gcd_{sg}_{i.tag}", 'c18_gcd', f"{steps + 2}, {T}, {i.digit}, {i.n}, {steps}", tier=tier, cap=cap, inst=i.label, core=False, mem_gb=10,
               funcs=f"{'BUint' if sg == 'u' else 'BInt'} Integer::gcd / lcm", bound='all operand pairs; Euclid oracle'))
-        add(H('C18', f"c18_integer_{sg}_{i.tag}", 'c18_integer', f"{i.n + 4}, {T}, {i.digit}, {i.n}", tier=tier, cap=cap, inst=i.label, mem_gb=28,
+        add(H('C18', f"c18_integer_{sg}_{i.tag}", 'c18_integer', f"{i.n + 4}, {T}, {i.digit}, {i.n}", tier=tier, cap=cap, inst=i.label, mem_gb=10,
               core=(i.bits == 8),
               funcs=f"{'BUint' if sg == 'u' else 'BInt'} CheckedMul/Div/Rem, CheckedEuclid, Euclid, SaturatingMul, WrappingMul, Pow, MulAdd, Integer::div_floor/mod_floor/div_rem/divides/is_multiple_of",
               bound='all operand pairs; exact i32 oracle'))
@@ -431,7 +431,7 @@ for i, tier in ((I(8, 1), 'quick'), (I(8, 3), 'quick'), (I(64, 2), 'quick'), (I(
 def c10_str(i, sg, L, lo, hi, tier, cap=1800, core=False):
     T = i.U if sg == 'u' else i.I
     r = f"r{lo}" if lo == hi else f"r{lo}to{hi}"
-    add(H('C10', f"c10_str_{sg}_{i.tag}_{r}_l{L}", 'c10_str', f"{L + 2}, {T}, {i.digit}, {i.n}, {L}, {L}, {lo}, {hi}", tier=tier, cap=cap, inst=i.label, core=core, mem_gb=24,
+    add(H('C10', f"c10_str_{sg}_{i.tag}_{r}_l{L}", 'c10_str', f"{L + 2}, {T}, {i.digit}, {i.n}, {L}, {L}, {lo}, {hi}", tier=tier, cap=cap, inst=i.label, core=core, mem_gb=6,
           funcs=f"{'BUint' if sg == 'u' else 'BInt'}::from_str_radix" + (' + FromStr' if lo <= 10 <= hi else ''),
           bound=f"all ASCII strings of length 0..={L}, radix {lo}..={hi}; unwind {L + 2}"))
 
@@ -439,7 +439,7 @@ def c10_str(i, sg, L, lo, hi, tier, cap=1800, core=False):
 def c10_digits(i, sg, L, lo, hi, tier, cap=1800, core=False):
     T = i.U if sg == 'u' else i.I
     r = f"r{lo}" if lo == hi else f"r{lo}to{hi}"
-    add(H('C10', f"c10_digits_{sg}_{i.tag}_{r}_l{L}", 'c10_digits', f"{max(L, 2 * i.bytes) + 3}, {T}, {i.digit}, {i.n}, {L}, {lo}, {hi}", tier=tier, cap=cap, inst=i.label, core=core, mem_gb=24,
+    add(H('C10', f"c10_digits_{sg}_{i.tag}_{r}_l{L}", 'c10_digits', f"{max(L, 2 * i.bytes) + 3}, {T}, {i.digit}, {i.n}, {L}, {lo}, {hi}", tier=tier, cap=cap, inst=i.label, core=core, mem_gb=6,
           funcs=f"{'BUint' if sg == 'u' else 'BInt'}::from_radix_be / from_radix_le", bound=f"all digit slices of length 0..={L}, radix {lo}..={hi}"))
 
 
@@ -461,7 +461,7 @@ for sg in ('u', 'i'):
     for i in (I(32, 1), I(64, 1)):
         c10_str(i, sg, 4, 16, 16, 'thorough', cap=3600)
         c10_str(i, sg, 4, 10, 10, 'thorough', cap=3600)
-    add(H('C10', f"c10_bytes_{sg}_d8x1", 'c10_bytes', f"6, {I(8, 1).U if sg == 'u' else I(8, 1).I}, u8, 1, 3, 10", inst=I(8, 1).label, cap=1800, core=False, mem_gb=24,
+    add(H('C10', f"c10_bytes_{sg}_d8x1", 'c10_bytes', f"6, {I(8, 1).U if sg == 'u' else I(8, 1).I}, u8, 1, 3, 10", inst=I(8, 1).label, cap=1800, core=False, mem_gb=6,
           funcs='parse_bytes (UTF-8 validation + grammar)', bound='all byte strings of length 0..=3, radix 10'))
 c10_digits(I(8, 1), 'u', 10, 2, 2, 'quick', core=True)
 c10_digits(I(8, 1), 'u', 4, 16, 16, 'quick', core=True)
@@ -486,37 +486,45 @@ for i, tier in ((I(8, 1), 'quick'), (I(64, 2), 'thorough')):
 import math
 
 
-def c11(i, sg, R, tier, with_str, vmax=0, cap=1800, seeded=False, core=False):
+def c11(i, sg, R, tier, what, vmax=0, cap=1800, core=False):
+    """what: 'digits' (to_radix_le/be postcondition), 'rt' (+ round trip through from_radix_*), 'str' (to_str_radix postcondition), 'strrt' (+ parse round trip)"""
     T = i.U if sg == 'u' else i.I
     bits = i.bits if not vmax else vmax.bit_length()
     maxd = max(1, math.ceil(bits / math.log2(R)))
     if R & (R - 1) == 0:
         maxd = math.ceil(bits / int(math.log2(R)))
-    add(H('C11', f"c11_radix_{sg}_{i.tag}_r{R}", 'c11_radix', f"{max(maxd, i.bytes) + 3}, {T}, {i.digit}, {i.n}, {R}, {maxd}, {'true' if with_str else 'false'}, {vmax}",
-          tier=tier, cap=cap, inst=i.label, seeded=seeded, core=core, mem_gb=28,
-          funcs=f"{'BUint' if sg == 'u' else 'BInt'}::to_radix_le/to_radix_be" + ('/to_str_radix' if with_str else '') + ' + round trip through from_radix_*' + ('/from_str_radix' if with_str else ''),
+    with_str = 'true' if what in ('str', 'strrt') else 'false'
+    rt = 'true' if what in ('rt', 'strrt') else 'false'
+    add(H('C11', f"c11_{what}_{sg}_{i.tag}_r{R}", 'c11_radix', f"{max(maxd, i.bytes) + 3}, {T}, {i.digit}, {i.n}, {R}, {maxd}, {with_str}, {vmax}, {rt}",
+          tier=tier, cap=cap, inst=i.label, core=core, mem_gb=(8 if what in ('digits', 'str') else 16),
+          funcs=f"{'BUint' if sg == 'u' else 'BInt'}::to_radix_le/to_radix_be" + ('/to_str_radix' if with_str == 'true' else '') + (' + round trip through from_radix_*' + ('/from_str_radix' if with_str == 'true' else '') if rt == 'true' else ''),
           bound=('all values' if not vmax else f'all values <= {vmax}') + f', radix {R} (concrete)'))
 
 
+for R in (2, 3, 7, 8, 10, 16, 32, 36, 100, 128, 255, 256):
+    c11(I(8, 1), 'u', R, 'quick', 'digits', core=(R in (2, 10, 16, 256)))
 for R in (2, 10, 16, 36):
-    c11(I(8, 1), 'u', R, 'quick', True, core=(R in (2, 16)))
-for R in (3, 8, 255, 256):
-    c11(I(8, 1), 'u', R, 'quick', R <= 36)
+    c11(I(8, 1), 'u', R, 'quick', 'str')
+for R in (2, 10, 16, 256):
+    c11(I(8, 1), 'u', R, 'quick' if R in (16, 256) else 'thorough', 'rt', cap=3600)
 for R in (10, 16):
-    c11(I(8, 1), 'i', R, 'quick', True)
+    c11(I(8, 1), 'i', R, 'quick', 'digits')
+    c11(I(8, 1), 'u', R, 'thorough', 'strrt', cap=5400)
 for R in range(2, 257):
-    if R not in (2, 3, 8, 10, 16, 36, 255, 256):
-        c11(I(8, 1), 'u', R, 'quick' if R in (7, 32, 100, 128) else 'thorough', R <= 36, seeded=False)
-for R in (2, 3, 7, 8, 32, 36, 100, 128, 255, 256):
-    c11(I(8, 1), 'i', R, 'thorough', R <= 36)
+    if R not in (2, 3, 7, 8, 10, 16, 32, 36, 100, 128, 255, 256):
+        c11(I(8, 1), 'u', R, 'thorough', 'digits')
+    if R <= 36 and R not in (2, 10, 16, 36):
+        c11(I(8, 1), 'u', R, 'thorough', 'str')
+for R in (2, 3, 8, 36, 255, 256):
+    c11(I(8, 1), 'i', R, 'thorough', 'digits')
 for i, vmax in ((I(16, 1), 0), (I(32, 1), 65535), (I(64, 1), 65535)):
     for R in (16, 256, 10, 8):
-        c11(i, 'u', R, 'quick' if (R in (256,) or (i.bits == 16 and R == 16)) else 'thorough', R <= 36, vmax=vmax, cap=3600)
+        c11(i, 'u', R, 'quick' if (R == 256 or (i.bits == 16 and R == 16)) else 'thorough', 'digits', vmax=vmax, cap=3600)
 for R in (2, 8, 10, 16, 32, 36, 255, 256):
-    c11(I(8, 2), 'u', R, 'thorough', R <= 36 and R in (10, 16), cap=7200)
+    c11(I(8, 2), 'u', R, 'thorough', 'digits', cap=7200)
 for i, R, tier in ((I(8, 1), 10, 'quick'), (I(8, 1), 16, 'quick'), (I(8, 1), 2, 'thorough'), (I(8, 1), 36, 'thorough'), (I(8, 2), 10, 'thorough')):
     maxd = math.ceil(i.bits / math.log2(R))
-    add(H('C11', f"c11_str_neg_{i.tag}_r{R}", 'c11_str_neg', f"{maxd + 5}, {i.I}, {i.digit}, {i.n}, {R}, {maxd}", tier=tier, cap=3600, inst=i.label, core=False, mem_gb=28,
+    add(H('C11', f"c11_str_neg_{i.tag}_r{R}", 'c11_str_neg', f"{maxd + 5}, {i.I}, {i.digit}, {i.n}, {R}, {maxd}", tier=tier, cap=3600, inst=i.label, core=False, mem_gb=16,
           funcs="BInt::to_str_radix for negative values ('-' + magnitude) + round trip", bound=f'all negative values, radix {R}'))
 add(H('C11', "c11_radix_panic_d8x1", 'c11_radix_panic', f"12, {I(8, 1).U}, {I(8, 1).I}", inst=I(8, 1).label, kind='panic', cap=1800, core=False,
       funcs='to_radix_le/be, to_str_radix with an out-of-range radix', bound='radices 0, 1, 37 / 257, u32::MAX'))
@@ -526,7 +534,7 @@ add(H('C11', "c11_radix_panic_d8x1", 'c11_radix_panic', f"12, {I(8, 1).U}, {I(8,
 for i, tier, cap in ((I(8, 1), 'quick', 900), (I(8, 2), 'thorough', 7200), (I(16, 1), 'thorough', 7200)):
     for sg, T in (('u', i.U), ('i', i.I)):
         nm = 'BUint' if sg == 'u' else 'BInt'
-        add(H('C20', f"c20_range_{sg}_{i.tag}", 'c20_range', f"{i.bytes + 4}, {T}, {i.digit}, {i.n}", tier=tier, cap=cap, inst=i.label, core=(i.bits == 8), mem_gb=24,
+        add(H('C20', f"c20_range_{sg}_{i.tag}", 'c20_range', f"{i.bytes + 4}, {T}, {i.digit}, {i.n}", tier=tier, cap=cap, inst=i.label, core=(i.bits == 8), mem_gb=6,
               funcs=f"{nm} gen_range(a..b), gen_range(a..=b), Uniform::new(..).sample, Uniform::new_inclusive(..).sample, sample_single, sample_single_inclusive",
               bound='all bounds, all RNG streams with at most 2 rejections (3 draws)'))
         for single in (False, True):
@@ -535,14 +543,14 @@ for i, tier, cap in ((I(8, 1), 'quick', 900), (I(8, 2), 'thorough', 7200), (I(16
                   funcs=f"{nm} {'sample_single_inclusive' if single else 'Uniform::sample'}: equal number of accepted RNG words per value",
                   bound='all bounds, all pairs of offsets, all word positions inside a block (relational 2-run query)'))
 for i, tier in ((I(8, 1), 'quick'), (I(8, 3), 'quick'), (I(64, 2), 'quick'), (I(16, 2), 'thorough'), (I(32, 3), 'thorough'), (I(64, 1), 'thorough'), (I(64, 3), 'thorough')):
-    add(H('C20', f"c20_fill_{i.tag}", 'c20_fill', f"{3 * i.bytes + 3}, {i.U}, {i.I}, {i.digit}, {i.n}", tier=tier, cap=1800, inst=i.label, mem_gb=24,
+    add(H('C20', f"c20_fill_{i.tag}", 'c20_fill', f"{3 * i.bytes + 3}, {i.U}, {i.I}, {i.digit}, {i.n}", tier=tier, cap=1800, inst=i.label, mem_gb=6,
           funcs='Standard (rng.gen) for BUint/BInt, Fill / try_fill_slice for slices of length 0..=3', bound='all RNG streams, symbolic byte index'))
 
 
 # ---------------------------------------------------------------- C16
 def c16_pair(macro, a, b, sg, tier, extra='', cap=1200, core=True, label=''):
     A, B = (a.U, b.U) if sg == 'u' else (a.I, b.I)
-    add(H('C16', f"{macro}_{sg}_{a.tag}_{b.tag}", macro, f"{max(a.n, b.n, a.bytes if 'lin' in macro or 'shift' in macro else 0) + 3}, {A}, {a.digit}, {a.n}, {B}, {b.digit}, {b.n}{extra}",
+    add(H('C16', f"{macro}{'_alpha' if 'any_alpha' in extra else ''}_{sg}_{a.tag}_{b.tag}", macro, f"{max(a.n, b.n, a.bytes if 'lin' in macro or 'shift' in macro else 0) + 3}, {A}, {a.digit}, {a.n}, {B}, {b.digit}, {b.n}{extra}",
           tier=tier, cap=cap, inst=f"{a.label} vs {b.label}", core=core, funcs=label, bound='all operand values' if 'alpha' not in extra else 'digits over the boundary alphabet'))
 
 
@@ -552,7 +560,8 @@ for sg in ('u', 'i'):
                        (I(16, 8), I(64, 2), 'thorough'), (I(8, 12), I(32, 3), 'thorough')):
         c16_pair('c16_same_width_lin', a, b, sg, tier, label='equal width, two digit types: add/sub/neg/cmp/bitwise/counts/swap/reverse/saturating/casts')
         c16_pair('c16_same_width_shift', a, b, sg, tier, label='equal width, two digit types: shl/shr/rotate/unbounded shifts, amount over all of u32')
-    c16_pair('c16_same_width_mul', I(8, 2), I(16, 1), sg, 'quick', extra=', any', cap=3600, core=False, label='equal width 16: mul/div/rem/pow full operands')
+    c16_pair('c16_same_width_mul', I(8, 2), I(16, 1), sg, 'thorough', extra=', any', cap=7200, core=False, label='equal width 16: mul/div/rem/pow full operands')
+    c16_pair('c16_same_width_mul', I(8, 2), I(16, 1), sg, 'quick', extra=', any_alpha', cap=1800, core=False, label='equal width 16: mul/div/rem/pow, u8 digits over the boundary alphabet')
     for a, b in ((I(8, 4), I(32, 1)), (I(16, 2), I(32, 1)), (I(8, 8), I(64, 1))):
         c16_pair('c16_same_width_mul', a, b, sg, 'thorough', extra=', any_alpha', cap=5400, core=False, label='equal width: mul/div/rem/pow, alphabet operands')
     for a, b, mul, tier in ((I(8, 1), I(8, 2), 'true', 'quick'), (I(8, 1), I(16, 1), 'true', 'thorough'), (I(8, 2), I(8, 3), 'false', 'quick'), (I(16, 1), I(32, 1), 'false', 'quick'),
